@@ -1,0 +1,301 @@
+//! Verification hooks (cargo feature `verif-hooks`, off by default).
+//!
+//! Thin wrappers over crate-private functions plus a thread-local event sink, so an
+//! external conformance harness can observe internal behaviour. Nothing here is used by
+//! the library itself; with the feature disabled this module does not exist.
+
+extern crate std;
+
+use crate::types::{R, T};
+use std::cell::RefCell;
+use std::vec::Vec;
+
+/// One recorded event: a static name and up to eight integers.
+pub type Event = (&'static str, [i64; 8]);
+
+std::thread_local! {
+    static SINK: RefCell<Option<Vec<Event>>> = const { RefCell::new(None) };
+}
+
+/// Start recording events on this thread (drops anything recorded before).
+pub fn trace_start() { SINK.with(|s| *s.borrow_mut() = Some(Vec::new())); }
+
+/// Stop recording and return the recorded events.
+#[must_use]
+pub fn trace_take() -> Vec<Event> { SINK.with(|s| s.borrow_mut().take().unwrap_or_default()) }
+
+/// True when a recording is active on this thread.
+#[must_use]
+pub fn tracing() -> bool { SINK.with(|s| s.borrow().is_some()) }
+
+/// Record an event if a recording is active.
+pub fn emit(name: &'static str, vals: [i64; 8]) {
+    SINK.with(|s| {
+        if let Some(v) = s.borrow_mut().as_mut() {
+            v.push((name, vals));
+        }
+    });
+}
+
+/// Largest absolute value in a set of polynomials (as i64, so `i32::MIN` is exact).
+pub(crate) fn max_abs<P: core::borrow::Borrow<[i32; 256]>>(it: impl Iterator<Item = P>) -> i64 {
+    it.map(|p| p.borrow().iter().map(|&e| i64::from(e).abs()).max().unwrap_or(0)).max().unwrap_or(0)
+}
+
+fn r_in<const N: usize>(a: &[[i32; 256]; N]) -> [R; N] { core::array::from_fn(|i| R(a[i])) }
+fn t_in<const N: usize>(a: &[[i32; 256]; N]) -> [T; N] { core::array::from_fn(|i| T(a[i])) }
+fn r_out<const N: usize>(a: &[R; N]) -> [[i32; 256]; N] { core::array::from_fn(|i| a[i].0) }
+fn t_out<const N: usize>(a: &[T; N]) -> [[i32; 256]; N] { core::array::from_fn(|i| a[i].0) }
+
+/// The modulus `q`.
+pub const Q: i32 = crate::Q;
+/// The number of dropped bits `d`.
+pub const D: u32 = crate::D;
+
+// ----- helpers.rs -----
+
+/// `helpers::partial_reduce32`
+#[inline]
+#[must_use]
+pub fn partial_reduce32(a: i32) -> i32 { crate::helpers::partial_reduce32(a) }
+/// `helpers::full_reduce32`
+#[inline]
+#[must_use]
+pub fn full_reduce32(a: i32) -> i32 { crate::helpers::full_reduce32(a) }
+/// `helpers::partial_reduce64`
+#[inline]
+#[must_use]
+pub fn partial_reduce64(a: i64) -> i32 { crate::helpers::partial_reduce64(a) }
+/// `helpers::mont_reduce`
+#[inline]
+#[must_use]
+pub fn mont_reduce(a: i64) -> i32 { crate::helpers::mont_reduce(a) }
+/// `helpers::center_mod`
+#[inline]
+#[must_use]
+pub fn center_mod(a: i32) -> i32 { crate::helpers::center_mod(a) }
+/// `helpers::bit_length`
+#[must_use]
+pub fn bit_length(x: i32) -> usize { crate::helpers::bit_length(x) }
+/// `helpers::is_in_range`
+#[must_use]
+pub fn is_in_range(w: &[i32; 256], lo: i32, hi: i32) -> bool {
+    crate::helpers::is_in_range(&R(*w), lo, hi)
+}
+/// `helpers::infinity_norm`
+#[must_use]
+pub fn infinity_norm<const N: usize>(w: &[[i32; 256]; N]) -> i32 {
+    crate::helpers::infinity_norm(&r_in(w))
+}
+/// `helpers::mat_vec_mul`
+#[must_use]
+pub fn mat_vec_mul<const K: usize, const L: usize>(
+    a_hat: &[[[i32; 256]; L]; K], u_hat: &[[i32; 256]; L],
+) -> [[i32; 256]; K] {
+    let a: [[T; L]; K] = core::array::from_fn(|i| t_in(&a_hat[i]));
+    t_out(&crate::helpers::mat_vec_mul(&a, &t_in(u_hat)))
+}
+/// `helpers::to_mont`
+#[must_use]
+pub fn to_mont<const N: usize>(v: &[[i32; 256]; N]) -> [[i32; 256]; N] {
+    t_out(&crate::helpers::to_mont(&t_in(v)))
+}
+/// `helpers::add_vector_ntt`
+#[must_use]
+pub fn add_vector_ntt<const N: usize>(
+    v: &[[i32; 256]; N], w: &[[i32; 256]; N],
+) -> [[i32; 256]; N] {
+    r_out(&crate::helpers::add_vector_ntt(&r_in(v), &r_in(w)))
+}
+/// `helpers::ZETA_TABLE_MONT`
+#[must_use]
+pub fn zeta_table_mont() -> [i32; 256] { crate::helpers::ZETA_TABLE_MONT }
+
+// ----- ntt.rs -----
+
+/// `ntt::ntt`
+#[must_use]
+pub fn ntt<const N: usize>(w: &[[i32; 256]; N]) -> [[i32; 256]; N] {
+    t_out(&crate::ntt::ntt(&r_in(w)))
+}
+/// `ntt::inv_ntt`
+#[must_use]
+pub fn inv_ntt<const N: usize>(w: &[[i32; 256]; N]) -> [[i32; 256]; N] {
+    r_out(&crate::ntt::inv_ntt(&t_in(w)))
+}
+
+// ----- high_low.rs -----
+
+/// `high_low::power2round` on 256 coefficients at once; returns `(r1, r0)`.
+#[must_use]
+pub fn power2round(r: &[i32; 256]) -> ([i32; 256], [i32; 256]) {
+    let (a, b) = crate::high_low::power2round::<1>(&[R(*r)]);
+    (a[0].0, b[0].0)
+}
+/// `high_low::decompose`; returns `(r1, r0)`.
+#[inline]
+#[must_use]
+pub fn decompose(gamma2: i32, r: i32) -> (i32, i32) { crate::high_low::decompose(gamma2, r) }
+/// `high_low::high_bits`
+#[inline]
+#[must_use]
+pub fn high_bits(gamma2: i32, r: i32) -> i32 { crate::high_low::high_bits(gamma2, r) }
+/// `high_low::low_bits`
+#[inline]
+#[must_use]
+pub fn low_bits(gamma2: i32, r: i32) -> i32 { crate::high_low::low_bits(gamma2, r) }
+/// `high_low::make_hint`
+#[inline]
+#[must_use]
+pub fn make_hint(gamma2: i32, z: i32, r: i32) -> bool { crate::high_low::make_hint(gamma2, z, r) }
+/// `high_low::use_hint`
+#[inline]
+#[must_use]
+pub fn use_hint(gamma2: i32, h: i32, r: i32) -> i32 { crate::high_low::use_hint(gamma2, h, r) }
+
+// ----- conversion.rs -----
+
+/// `conversion::coeff_from_three_bytes` (`None` is the standard's "reject").
+#[inline]
+#[must_use]
+pub fn coeff_from_three_bytes<const CTEST: bool>(b: [u8; 3]) -> Option<i32> {
+    crate::conversion::coeff_from_three_bytes::<CTEST>(b).ok()
+}
+/// `conversion::coeff_from_half_byte` (`None` is the standard's "reject").
+#[inline]
+#[must_use]
+pub fn coeff_from_half_byte<const CTEST: bool>(eta: i32, b: u8) -> Option<i32> {
+    crate::conversion::coeff_from_half_byte::<CTEST>(eta, b).ok()
+}
+/// `conversion::simple_bit_pack`
+pub fn simple_bit_pack(w: &[i32; 256], b: i32, out: &mut [u8]) {
+    crate::conversion::simple_bit_pack(&R(*w), b, out);
+}
+/// `conversion::bit_pack`
+pub fn bit_pack(w: &[i32; 256], a: i32, b: i32, out: &mut [u8]) {
+    crate::conversion::bit_pack(&R(*w), a, b, out);
+}
+/// `conversion::simple_bit_unpack`
+#[must_use]
+pub fn simple_bit_unpack(v: &[u8], b: i32) -> Option<[i32; 256]> {
+    crate::conversion::simple_bit_unpack(v, b).ok().map(|r| r.0)
+}
+/// `conversion::bit_unpack`
+#[must_use]
+pub fn bit_unpack(v: &[u8], a: i32, b: i32) -> Option<[i32; 256]> {
+    crate::conversion::bit_unpack(v, a, b).ok().map(|r| r.0)
+}
+/// `conversion::hint_bit_pack`
+pub fn hint_bit_pack<const CTEST: bool, const K: usize>(
+    omega: i32, h: &[[i32; 256]; K], out: &mut [u8],
+) {
+    crate::conversion::hint_bit_pack::<CTEST, K>(omega, &r_in(h), out);
+}
+/// `conversion::hint_bit_unpack`
+#[must_use]
+pub fn hint_bit_unpack<const K: usize>(omega: i32, y: &[u8]) -> Option<[[i32; 256]; K]> {
+    crate::conversion::hint_bit_unpack::<K>(omega, y).ok().map(|h| r_out(&h))
+}
+
+// ----- encodings.rs -----
+
+/// `encodings::pk_encode`
+#[must_use]
+pub fn pk_encode<const K: usize, const PK_LEN: usize>(
+    rho: &[u8; 32], t1: &[[i32; 256]; K],
+) -> [u8; PK_LEN] {
+    crate::encodings::pk_encode::<K, PK_LEN>(rho, &r_in(t1))
+}
+/// `encodings::pk_decode`
+#[must_use]
+pub fn pk_decode<const K: usize, const PK_LEN: usize>(
+    pk: &[u8; PK_LEN],
+) -> Option<([u8; 32], [[i32; 256]; K])> {
+    crate::encodings::pk_decode::<K, PK_LEN>(pk).ok().map(|(rho, t1)| (*rho, r_out(&t1)))
+}
+/// `encodings::sk_encode`
+#[must_use]
+#[allow(clippy::too_many_arguments)]
+pub fn sk_encode<const K: usize, const L: usize, const SK_LEN: usize>(
+    eta: i32, rho: &[u8; 32], k: &[u8; 32], tr: &[u8; 64], s_1: &[[i32; 256]; L],
+    s_2: &[[i32; 256]; K], t_0: &[[i32; 256]; K],
+) -> [u8; SK_LEN] {
+    crate::encodings::sk_encode::<K, L, SK_LEN>(eta, rho, k, tr, &r_in(s_1), &r_in(s_2), &r_in(t_0))
+}
+/// Decoded private key fields: `(rho, K, tr, s1, s2, t0)`.
+pub type SkFields<const K: usize, const L: usize> =
+    ([u8; 32], [u8; 32], [u8; 64], [[i32; 256]; L], [[i32; 256]; K], [[i32; 256]; K]);
+/// `encodings::sk_decode`
+#[must_use]
+pub fn sk_decode<const K: usize, const L: usize, const SK_LEN: usize>(
+    eta: i32, sk: &[u8; SK_LEN],
+) -> Option<SkFields<K, L>> {
+    crate::encodings::sk_decode::<K, L, SK_LEN>(eta, sk)
+        .ok()
+        .map(|(rho, k, tr, s1, s2, t0)| (*rho, *k, *tr, r_out(&s1), r_out(&s2), r_out(&t0)))
+}
+/// `encodings::sig_encode`
+#[must_use]
+pub fn sig_encode<const K: usize, const L: usize, const LAMBDA_DIV4: usize, const SIG_LEN: usize>(
+    gamma1: i32, omega: i32, c_tilde: &[u8; LAMBDA_DIV4], z: &[[i32; 256]; L],
+    h: &[[i32; 256]; K],
+) -> [u8; SIG_LEN] {
+    crate::encodings::sig_encode::<false, K, L, LAMBDA_DIV4, SIG_LEN>(
+        gamma1,
+        omega,
+        c_tilde,
+        &r_in(z),
+        &r_in(h),
+    )
+}
+/// Decoded signature fields: `(c_tilde, z, h)`.
+pub type SigFields<const K: usize, const L: usize, const LAMBDA_DIV4: usize> =
+    ([u8; LAMBDA_DIV4], [[i32; 256]; L], [[i32; 256]; K]);
+/// `encodings::sig_decode` (`None` when decoding fails or the hint is malformed).
+#[must_use]
+pub fn sig_decode<const K: usize, const L: usize, const LAMBDA_DIV4: usize, const SIG_LEN: usize>(
+    gamma1: i32, omega: i32, sigma: &[u8; SIG_LEN],
+) -> Option<SigFields<K, L, LAMBDA_DIV4>> {
+    match crate::encodings::sig_decode::<K, L, LAMBDA_DIV4, SIG_LEN>(gamma1, omega, sigma) {
+        Ok((c, z, Some(h))) => Some((c, r_out(&z), r_out(&h))),
+        _ => None,
+    }
+}
+/// `encodings::w1_encode`
+pub fn w1_encode<const K: usize>(gamma2: i32, w1: &[[i32; 256]; K], out: &mut [u8]) {
+    crate::encodings::w1_encode::<K>(gamma2, &r_in(w1), out);
+}
+
+// ----- hashing.rs -----
+
+/// `hashing::sample_in_ball`
+#[must_use]
+pub fn sample_in_ball<const CTEST: bool>(tau: i32, rho: &[u8]) -> [i32; 256] {
+    crate::hashing::sample_in_ball::<CTEST>(tau, rho).0
+}
+/// `hashing::expand_a`
+#[must_use]
+pub fn expand_a<const K: usize, const L: usize>(rho: &[u8; 32]) -> [[[i32; 256]; L]; K] {
+    let a = crate::hashing::expand_a::<false, K, L>(rho);
+    core::array::from_fn(|i| t_out(&a[i]))
+}
+/// `hashing::expand_s`; returns `(s1, s2)`.
+#[must_use]
+pub fn expand_s<const K: usize, const L: usize>(
+    eta: i32, rho: &[u8; 64],
+) -> ([[i32; 256]; L], [[i32; 256]; K]) {
+    let (s1, s2) = crate::hashing::expand_s::<false, K, L>(eta, rho);
+    (r_out(&s1), r_out(&s2))
+}
+/// `hashing::expand_mask`
+#[must_use]
+pub fn expand_mask<const L: usize>(gamma1: i32, rho: &[u8; 64], mu: u16) -> [[i32; 256]; L] {
+    r_out(&crate::hashing::expand_mask::<L>(gamma1, rho, mu))
+}
+/// `hashing::hash_message`; returns `(oid, digest, digest_len)`.
+#[must_use]
+pub fn hash_message(message: &[u8], ph: &crate::types::Ph) -> ([u8; 11], [u8; 64], usize) {
+    let mut phm = [0u8; 64];
+    let (oid, n) = crate::hashing::hash_message(message, ph, &mut phm);
+    (oid, phm, n)
+}
